@@ -50,6 +50,9 @@ func (p *Prog) computeOpaque() []opaqueRange {
 			if _, known := fieldTable[tn.Pkg().Path()+"."+tn.Name()]; known {
 				return "", false
 			}
+			if _, renamed := typeAlias[tn.Pkg().Path()+"."+tn.Name()]; renamed {
+				return "", false
+			}
 			return tn.Name(), true
 		}
 		// iterator functions of the module: functions whose result is a func taking a yield func
